@@ -304,6 +304,7 @@ func checkCmd(opts *RunOpts, args []string) int {
 	seenObl := map[string]bool{}
 	witnessCache := map[string]bool{}
 	var unsatCore []string
+	cexCache := map[string]*Cex{}
 	var cov_order map[string]any
 
 	for _, res := range run.Results {
@@ -391,6 +392,27 @@ func checkCmd(opts *RunOpts, args []string) int {
 					if ob.Kind == "ground" && ob.Status == "refuted" {
 						// decided exactly on the extracted constant: the constant is the failing input
 						suffix = ""
+					}
+					// a failed proof of a plain-value function: look for a concrete failing
+					// input by running the real function on small inputs (search.go)
+					if run.World != nil && ob.Kind != "ground" {
+						cx, searched := cexCache[res.Name]
+						if !searched {
+							if c := res.Contract; c != nil {
+								cx, _ = run.World.searchCounterexample(opts, c)
+							}
+							cexCache[res.Name] = cx
+						}
+						if cx != nil {
+							in, _ := json.Marshal(cx.Inputs)
+							outj, _ := json.Marshal(cx.Outputs)
+							obs := "results " + string(outj)
+							if cx.PanicMsg != "" {
+								obs = "panic: " + cx.PanicMsg
+							}
+							appendReplay(rp, fmt.Sprintf("\n--- failing input found on the real code (in-package test via go test -overlay; %d small inputs tried) ---\ncontract clause falsified: %s\ninputs: %s\nobserved: %s\n--- replay test (put into the package directory as a _test.go file) ---\n%s\n", cx.Explored, cx.Clause, string(in), obs, cx.TestSrc))
+							suffix = fmt.Sprintf(" failing-input=%s falsifies=%s observed=%s", string(in), cx.Clause, firstLines(obs, 1))
+						}
 					}
 					violations = append(violations, fmt.Sprintf("VIOLATION property=%s replay=%s obligation=%s status=%s%s", prop, rp, ob.Name, ob.Status, suffix))
 					samples = append(samples, map[string]any{"obligation": ob.Name, "verdict": "violation", "status": ob.Status})
@@ -589,7 +611,7 @@ func writeReplay(opts *RunOpts, prop string, ob *Obl, run *Run) string {
 	if ob.Kind == "ground" && ob.Status == "refuted" {
 		fmt.Fprintf(&b, "failing-input: the schema constant extracted from the working tree (see output below); replay: /verif/check %s quick re-extracts and re-evaluates it\n", prop)
 	} else {
-		fmt.Fprintf(&b, "failing-input: none (no-failing-input-found)\n")
+		fmt.Fprintf(&b, "failing-input: none from the solver (no-failing-input-found unless a section `failing input found on the real code` follows)\n")
 	}
 	fmt.Fprintf(&b, "--- solver output ---\n%s\n", firstLines(ob.Output, 200))
 	if ob.File != "" {
@@ -608,4 +630,13 @@ func outRoot(opts *RunOpts) string {
 		return d
 	}
 	return opts.Verif
+}
+
+func appendReplay(path, text string) {
+	f, err := os.OpenFile(path, os.O_APPEND|os.O_WRONLY, 0o644)
+	if err != nil {
+		return
+	}
+	defer f.Close()
+	f.WriteString(text)
 }
